@@ -30,7 +30,7 @@ def growth_rules(chk, prog, eff, G, label):
         f = prog.fn(name)
         where = "%s:%d" % (f.file, f.line)
         forms = set()
-        for k, pa in enumerate(cache.get(name)):
+        for k, pa in enumerate(cache.get(name, inline_static=True)):
             st = pa.st
             slot_stores = [(e,) + index_of(e.args[0]) for e in pa.events if e.kind == "store" and index_of(e.args[0])[1] is not None]
             if not slot_stores:
